@@ -34,6 +34,12 @@ def _run_once(pid, mod, facts, repo, positive, tier):
             rule(c)
         except Skip:
             pass
+        except Exception as e:      # a rule that cannot cope with the shape of the code fails closed, it does not crash
+            import traceback
+            sys.stderr.write(traceback.format_exc())
+            c.bad('shape', 'rule-not-applicable:%s' % rule.__name__,
+                  'rule %s could not be evaluated on this tree (%s: %s): the code it analyses no longer has a shape the rule '
+                  'understands' % (rule.__name__, type(e).__name__, str(e)[:120]))
         for o in c.obligations[n0:]:
             o['fn'] = rule.__name__
     return c
